@@ -1049,9 +1049,10 @@ func (dsc *dataStoreCommand) randomKey() (output respValue) {
 		l := len(dsc.ds.data.buckets)
 		n := rand.Intn(l)
 
-		for {
+		// one full turn from a random start; expired keys do not exist
+		for visited := 0; visited < l; visited++ {
 			item := dsc.ds.data.buckets[n]
-			if item != nil {
+			if item != nil && !item.value.(*storeKey).isExpiredUnlocked() {
 				output.data = respBulkString(item.key)
 				return
 			}
